@@ -71,7 +71,21 @@ def _setup(case):
         n = len(xf) - 1
         prim = _apply_units(md, cases.prim_state(md, case["state"], cases.norm_coord(xf)), case.get("units"))
         size = xf[1:] - xf[:-1]
-        disc = cases.build_disc(model, mesh, dict(name="extrapol1"), None, {"type": "per"}, {"type": "per"})
+        # boundaries: periodic, or (a deterministic third of the cases) Dirichlet states that are much faster than the field - the time step of a cell depends
+        # on that cell only
+        import zlib
+        if md["name"] != "nozzle" and zlib.crc32(repr(sorted((k, repr(v)) for k, v in case.items())).encode()) % 3 == 0:
+            fast = [float(np.max(np.abs(x))) for x in prim]
+            if md["name"] in ("convection", "burgers"):
+                bprim = [4.0 * fast[0] + 1.0]
+            elif md["name"] == "shallowwater":
+                bprim = [9.0 * fast[0], 4.0 * fast[1] + 3.0 * math.sqrt(md.get("g", 9.81) * fast[0])]
+            else:
+                bprim = [float(np.min(prim[0])), 4.0 * fast[1] + 3.0 * math.sqrt(md.get("gamma", 1.4) * fast[2] / float(np.min(prim[0]))), 9.0 * fast[2]]
+            bc = {"type": "dirichlet", "prim": bprim}
+            disc = cases.build_disc(model, mesh, dict(name="extrapol1"), None, dict(bc), dict(bc))
+        else:
+            disc = cases.build_disc(model, mesh, dict(name="extrapol1"), None, {"type": "per"}, {"type": "per"})
     return md, model, mesh, disc, prim, size, n
 
 
